@@ -483,12 +483,17 @@ func (m *lMachine) c19Post(i int, pre *c19Snap, values func(app, pool uint64) ma
 				m.c19.nMaster++
 				for f, v := range vals {
 					sum := new(big.Rat)
+					in := 0
 					for _, ch := range children {
 						if cv := values(g.AppId, ch); cv != nil {
 							if x, ok := cv[f]; ok {
 								sum.Add(sum, x)
+								in++
 							}
 						}
+					}
+					if in >= 2 {
+						m.r.Class("master-gauge-farmer-active-in-several-child-pools")
 					}
 					if sum.Cmp(v) < 0 {
 						elig[f] = sum
